@@ -349,7 +349,9 @@ def h_flags(s: str, b_i: int, tg_i: int, cs: bool, ls: bool, dflt: bool, n: int,
         assume(_plain_text(s))
     assume(all([c != '\n' for c in s]))
     if n:
-        assume(s[0] != '[' and not s[0].isspace())
+        assume(s[0] != '[')
+        if ls:      # with the generated "[N] " label the parser strips the whitespace after it; without a label the name is verbatim
+            assume(not s[0].isspace())
     assume(0 <= b_i < len(FLAG_BITS) and 0 <= tg_i < len(TAGSETS))
     if pin:
         assume(b_i == 4 and tg_i == 3)
